@@ -24,6 +24,13 @@ class VGenCall(Value):
         self.contract, self.fn, self.args, self.kwargs = contract, fn, args, kwargs
 
 
+class VFilteredList(Value):
+    """[x for x in <heap list> if cond(x)], not yet consumed (cond: Value -> z3 Bool, evaluated in the state at creation)"""
+    def __init__(self, lst, cond):
+        self.shape = None
+        self.lst, self.cond = lst, cond
+
+
 class VView(Value):
     """dict view / snapshot: keys | values | items of a dict object"""
     def __init__(self, d, kind):
@@ -310,6 +317,26 @@ def b_next(ex, args, kw):
         ex.raise_('StopIteration')
     if type(it).__name__ == 'VGen':
         return next_of_gen(ex, it, args[1] if len(args) > 1 else None)
+    if isinstance(it, VFilteredList):
+        # next(iter([x for x in lst if c(x)]), default): the first element that satisfies c
+        P = ex.path
+        ln = P.read_field(it.lst, 'len').e
+        items = P.read_field(it.lst, 'items')
+        default = args[1] if len(args) > 1 else None
+        k = z3.Int(fresh_name('k'))
+        ck = it.cond(items.shape.select(items, SV(IntS, k)))
+        if P.choose(2) == 0:
+            j = z3.Int(fresh_name('first'))
+            P.assume(z3.And(j >= 0, j < ln))
+            v = items.shape.select(items, SV(IntS, j))
+            P._assume_wf(v)
+            P.assume(it.cond(v))
+            P.assume(z3.ForAll([k], z3.Implies(z3.And(k >= 0, k < j), z3.Not(ck))))
+            return v
+        P.assume(z3.ForAll([k], z3.Implies(z3.And(k >= 0, k < ln), z3.Not(ck))))
+        if default is None:
+            ex.raise_('StopIteration')
+        return default
     raise Unsupported('next() of %r' % (it,))
 
 
